@@ -26,7 +26,9 @@ MANIFEST = dict(
          'dtype and length legal, a union holds exactly one option, recursively); a raising setter leaves the object unchanged; the integer, '
          'float and array-length checks are exact (accept every legal value, reject every illegal one); pick_width picks the least standard '
          'width.  The element-range part of the contract is refuted for the shipped code by a witness (known finding F-PY-ARRELEM) and proved for '
-         'the conformant variant (= the shape of the fix; the scanner tells which of the two the template in /repo is, the check probes which of '
+         'the conformant variant; ndarrays of another dtype wrap around on the conversion path unless the template pre-checks the source '
+         '(known finding F-PY-ARRWRAP: refuted by witness without the pre-check, proved range-exact with it, Python-int lists never '
+         'wrap) (conformant = the shape of the fix; the scanner tells which of the two the template in /repo is, the check probes which of '
          'the two the generated classes are, and both must agree) and for all types without arrays of non-standard-width integers.  Tie: pick_width is translated and the '
          'structure of base.j2 (which checks each setter and each assign_array branch contains, comparison operators, union bookkeeping) is '
          'scanned from /repo on every run, the proofs are re-checked against them; the extracted model and the real generated classes (real '
@@ -39,7 +41,7 @@ MANIFEST = dict(
          'everything NumPy stores but is not proved for reachable model states (needs idempotence of the rounding model) and is validated by '
          'the correspondence run.  Elements of composite arrays are not isinstance-checked by the template (stated as a theorem, outside the '
          'property text).  The support-library functions are tied by a shape pin, not translated.  Trusted: Coq kernel; the scanner and the pick_width translator (tools/translators/gen_c18.py); '
-         'the hand model of NumPy conversion (np.array/flatten, rounding to float16/32, int()/float()/bool()) which is validated by the '
+         'the hand model of NumPy conversion (np.array/flatten incl. the ASSUMED NumPy 2 law: C-cast wrap-around for ndarrays of another dtype, OverflowError for out-of-range Python ints; rounding to float16/32, int()/float()/bool()) which is validated by the '
          'correspondence run, not verified; extraction (ExtrOcamlBasic only) + ocaml/c18_driver.ml; tools/harness/c18_impl.py and the codec '
          'harness Python target.  Model domain: strings/bytes handed to numeric conversions are non-numeric text, nesting of list arguments is '
          'rectangular or ragged at depth <= 2, values reach setters as Python built-ins or 1-d NumPy arrays.',
